@@ -30,6 +30,7 @@ def default_profile(rng):
         "ifs": rng.random() < 0.3,
         "mixed_lb": rng.choice([0, 0, 0.3]),
         "deallocs": rng.choice([0, 0, 0.5]),
+        "rotation": rng.choice([0, 0, 0.15]),
         "counter": rng.random() < 0.15,
     }
 
@@ -90,6 +91,12 @@ class LoopGen:
             out.append(self.loop(depth, scope, ivs, bufs))
             return out
         for _ in range(r.randint(1, 3)):
+            if p.get("rotation") and depth < p["max_depth"] and not p["perfect"] and r.random() < p["rotation"]:
+                # buffer rotation: the loop carries the buffer of the previous iteration, allocates a new one, frees the old
+                self.tag += 4
+                lb, ub, st = self.bound(ivs)
+                out.append({"k": "rot", "iv": self.fresh("i"), "lb": lb, "ub": ub, "step": st, "tag": self.tag, "n": self.fresh("r")[2:]})
+                continue
             k = r.choices(["op", "for", "alloc", "subview", "if", "cnt"], [3, 2 if depth < p["max_depth"] else 0, 2 if p["allocs"] else 0, 1 if p["allocs"] else 0, (1 if p.get("ifs") and depth < p["max_depth"] and not p["perfect"] else 0), 2 if p.get("counter") else 0])[0]
             if k == "if":
                 # a conditional region around ops and loops: a loop inside it is not directly nested in the outer loop
@@ -128,7 +135,14 @@ class LoopGen:
                 self.tag += 1
                 out.append({"k": "op", "tag": self.tag, "args": [nm], "bufarg": True})
                 if p.get("deallocs") and r.random() < p["deallocs"]:
-                    out.append({"k": "dealloc", "buf": nm})  # the buffer is freed again in the same body
+                    how = r.choice(["plain", "plain", "branches", "cast"])
+                    if how == "branches" and ivs:
+                        # freed in both branches of a conditional
+                        out.append({"k": "if", "a": r.choice(ivs), "b": r.choice(["%c1", "%c2"]), "then": [{"k": "dealloc", "buf": nm}], "else": [{"k": "dealloc", "buf": nm}]})
+                    elif how == "cast":
+                        out.append({"k": "dealloc", "buf": nm, "cast": True})  # freed through a memref.cast of it
+                    else:
+                        out.append({"k": "dealloc", "buf": nm})  # the buffer is freed again in the same body
                 bufs = bufs + [nm]
             else:
                 nm = self.fresh("s")
@@ -193,6 +207,21 @@ def emit(ast) -> str:
                 e(ind, f'{s["name"]} = arith.{s["op"]} {s["a"]}, {s["b"]} : index')
             elif k == "alloc":
                 e(ind, f'{s["name"]} = memref.alloc({s["sizes"][0]}, {s["sizes"][1]}) {{alignment = 64 : i64, vsite = {s["site"]} : i64}} : {TB}')
+            elif k == "rot":
+                n_, t_ = s["n"], s["tag"]
+                e(ind, f'%ri{n_} = memref.alloc(%c2, %c2) {{alignment = 64 : i64, vsite = {t_} : i64}} : {TB}')
+                e(ind, f'%rr{n_} = scf.for {s["iv"]} = {s["lb"]} to {s["ub"]} step {s["step"]} iter_args(%rp{n_} = %ri{n_}) -> ({TB}) {{')
+                e(ind + 1, f'%rn{n_} = memref.alloc(%c2, %c2) {{alignment = 64 : i64, vsite = {t_ - 1} : i64}} : {TB}')
+                e(ind + 1, f'"test.op"(%rp{n_}, %rn{n_}) {{vtag = {t_ - 2} : i64}} : ({TB}, {TB}) -> ()')
+                e(ind + 1, f"memref.dealloc %rp{n_} : {TB}")
+                e(ind + 1, f"scf.yield %rn{n_} : {TB}")
+                e(ind, "}")
+                e(ind, f'"test.op"(%rr{n_}) {{vtag = {t_ - 3} : i64}} : ({TB}) -> ()')
+                e(ind, f"memref.dealloc %rr{n_} : {TB}")
+            elif k == "dealloc" and s.get("cast"):
+                cnt[0] += 1
+                e(ind, f'%dc{cnt[0]} = "memref.cast"({s["buf"]}) : ({TB}) -> {TB}')
+                e(ind, f"memref.dealloc %dc{cnt[0]} : {TB}")
             elif k == "dealloc":
                 e(ind, f'memref.dealloc {s["buf"]} : {TB}')
             elif k == "dim":
@@ -284,8 +313,9 @@ def has_imperfect_const_nest(body):
             return True
         if s["k"] != "for":
             continue
-        inner = [c for c in s["body"] if c["k"] == "for"]
-        others = [c for c in s["body"] if c["k"] in ("op", "alloc", "cnt_inc", "cnt_read", "if")]
+        inner = [c for c in s["body"] if c["k"] in ("for", "rot")]
+        # (a rotation loop comes with an allocation in front of it and a use behind it: never a perfect nest)
+        others = [c for c in s["body"] if c["k"] in ("op", "alloc", "cnt_inc", "cnt_read", "if", "rot")]
         if const0(s) and any(const0(c) for c in inner) and (others or len(inner) > 1):
             return True
         if has_imperfect_const_nest(s["body"]):
